@@ -192,8 +192,9 @@ int main(int argc, char** argv) {
       if (has(e, "!root ")) { ++roots; completed = true; continue; }
       if (has(e, "!op_destroyed")) { destroyed = true; continue; }
       if (has(e, "!start.returned")) { t0_returned = true; continue; }
-      if (touches && destroyed && bad.empty()) bad = "USE-AFTER-DESTROY: " + e;
-      if (touches && completed && !destroyed && bad.empty()) bad = "LATE-ACCESS: " + e;
+      const char* what = has(e, " c.state ") ? "STATE" : has(e, " c.cb") ? "CALLBACK" : "HOOK";
+      if (touches && destroyed && bad.empty()) bad = std::string("USE-AFTER-DESTROY-") + what + ": " + e;
+      if (touches && completed && !destroyed && bad.empty()) bad = std::string("LATE-ACCESS-") + what + ": " + e;
       if (has(e, " c.sync ") && t0_returned && bad.empty()) bad = "DANGLING-FLAG: " + e;
       if (has(e, "!nested.start")) { ++starts; in_nstart = true; }
       if (has(e, "!nstart.ret")) in_nstart = false;
